@@ -66,7 +66,14 @@ def gen(rng, i):
     edits = []
     cur = spec
     deleted = None
+    # a quarter of the evolutions only touch models of one database
+    one_sided = rng.choice(['default', 'other']) if rng.random() < 0.25 \
+        else None
     for m in names:
+        if one_sided and routes[('app1', m.lower())] != one_sided and \
+                len([x for x in names
+                     if routes[('app1', x.lower())] == one_sided]) > 0:
+            continue
         kind = rng.choice(['add', 'add_initial', 'delete', 'change', 'meta',
                            'delete_model'])
         if kind == 'delete_model' and (deleted or n < 3):
@@ -159,8 +166,27 @@ def run_case(desc):
                     sql_target[alias] = S.model_table(
                         spec0, 'app1', sorted(mine)[0])
             stats['per_database_sql'] = 1
-        proj.write_app('app1', [spec0['app1'], spec1['app1']],
-                       evolutions, nv=[0, len(evolutions)])
+        specs = [spec0, spec1]
+        nv = [0, len(evolutions)]
+        lead = not renamed and not sql_target and rng.random() < 0.5
+        if lead:
+            # one database is taken two versions ahead before the other one
+            # is touched; the last evolution names an earlier one of the
+            # app as a requirement (applied there, still pending elsewhere)
+            spec2 = S.clone(spec1)
+            t3 = []
+            for m in sorted(spec2['app1']):
+                spec2['app1'][m]['fields'].append(
+                    ['y', {'kind': 'Integer', 'null': True}])
+                t3.append("AddField(%r, 'y', models.IntegerField, "
+                          "null=True)" % m)
+            evolutions.append(('e_late', t3,
+                               {'AFTER_EVOLUTIONS': [('app1', 'e1')]}))
+            specs.append(spec2)
+            nv.append(len(evolutions))
+            stats['lead_projects'] = 1
+        proj.write_app('app1', [sp['app1'] for sp in specs],
+                       evolutions, nv=nv)
         for alias, table in sql_target.items():
             with open(proj.path('app1', 'evolutions',
                                 '%s_e2.sql' % alias), 'w') as f:
@@ -193,13 +219,21 @@ def run_case(desc):
         # ---- evolve each database in turn
         order = ['default', 'other']
         rng.shuffle(order)
-        for alias in order:
+        steps = [(order[0], 1), (order[1], 1)]
+        if lead:
+            steps = [(order[0], 1), (order[0], 2), (order[1], 2)]
+        at = {'default': 0, 'other': 0}
+        for alias, ver in steps:
             other = 'other' if alias == 'default' else 'default'
             sha_other = proj.sha(files[other])
             before = user_tables(proj, files[alias])
             drv = rng.choice(['evolve_api', 'evolve_cmd'])
-            ev = run(drv, 1, alias)
-            ctx = {'alias': alias, 'driver': drv,
+            ev = run(drv, ver, alias)
+            spec_prev, spec1 = specs[at[alias]], specs[ver]
+            if not ev.get('driver_error') and ev['outcome']['ok']:
+                at[alias] = ver
+            ctx = {'alias': alias, 'driver': drv, 'to_version': ver,
+                   'lead': bool(lead),
                    'has_rename': bool(renamed),
                    'rename_routed_here': bool(renamed) and routes[
                        ('app1', renamed[0].lower())] == alias}
@@ -222,8 +256,8 @@ def run_case(desc):
             after = user_tables(proj, files[alias])
             # (a failed run leaves V0 behind: the set of tables is then
             # compared with what this database owned before)
-            want = owned_by(spec1 if ev['outcome']['ok'] else spec0, routes,
-                            alias)
+            want = owned_by(spec1 if ev['outcome']['ok'] else spec_prev,
+                            routes, alias)
             if set(after) != want:
                 items.append(dict(ctx, type='TABLES_WRONG',
                                   missing=sorted(want - set(after)),
